@@ -219,6 +219,11 @@ func Quiesce()             { time.Sleep(20 * time.Millisecond) }
 func RunOutClock()         { time.Sleep(300 * time.Millisecond) }
 func FireTimer() bool      { time.Sleep(50 * time.Millisecond); return false }
 func PendingTimers() int   { return 0 }
+
+// PendingCallbackTimers counts pending timers that were armed with
+// time.AfterFunc: their owner can stop them, so after Close none may remain
+// (time.After channels cannot be stopped and simply run out).
+func PendingCallbackTimers() int { return 0 }
 func Now() time.Duration   { return 0 }
 func LiveGoroutines() int  { return runtime.NumGoroutine() }
 func AllocBytes() int      { return 0 }
